@@ -217,6 +217,14 @@ def _xvg_shard(arg):
         n_hash = draw(st.integers(0, 13))
         K = draw(st.integers(1, 10))
         legends = draw(st.lists(st.one_of(gromacs_names, legend_text), min_size=K, max_size=K, unique=True))
+        if K >= 2 and draw(st.integers(0, 3)) == 0:
+            # group-energy legends that differ only in capitalisation or surrounding blanks (Lig-SOL / LIG-SOL): distinct names
+            src = draw(st.integers(0, K - 1))
+            variants = [v for v in (legends[src].upper(), legends[src].lower(), legends[src].swapcase(), " " + legends[src],
+                                    legends[src] + " ") if v not in legends and v != "Time [ps]"]
+            if variants:
+                dst = draw(st.integers(0, K - 1).filter(lambda i: i != src))
+                legends[dst] = draw(st.sampled_from(variants))
         other_at = ['@    title "GROMACS Energies"', '@    xaxis  label "Time (ps)"', '@    yaxis  label "(kJ/mol)"',
                     "@TYPE xy", "@ view 0.15, 0.15, 0.75, 0.85", "@ legend on", "@ legend box on",
                     "@ legend loctype view", "@ legend 0.78, 0.8", "@ legend length 2"]
